@@ -10,14 +10,17 @@ from .ctr import ctr_backends
 from .c07 import check_lanes
 from .c13 import output_extent
 
-TITLE = ("Value equality of the independent vector round functions is not decided. Decided: (R1) for every vtable slot the "
+TITLE = ("Value equality of the S-box implementations is not decided. Decided: (R1) for every vtable slot the "
          "effect/guard summaries of the sibling back ends of one cipher agree after mapping context fields by name - guards "
          "on success paths, return constants, reject-before-write, and the written field sets of the success class (vector "
          "contexts may additionally write base_ptr and the lane counters); a guard present in the siblings and missing in one "
          "is reported at the deviant; (R2) in a back end with L > 1 lanes a setter that invalidates the buffered batch without "
          "reloading the counter must also rewind the lane counters, otherwise the next block is E(c+L) where the generic back "
          "end produces E(c+1); (R3) vector siblings of one parallel table type read the same key-schedule fields and cover "
-         "lanes x BLOCK bytes, and every CTR batch encryptor writes keystream block b from counter lane b only.")
+         "lanes x BLOCK bytes, and every CTR batch encryptor writes keystream block b from counter lane b only. (R4) vector copies of a permutation helper have the scalar routing table; (R5) GF(2) affine interpretation of the round loop of "
+         "every SKINNY block function of every back end (scalar, parallel vec128/vec256, CTR batch encryptors): block by block "
+         "the same linear layer as the scalar function - same S-box output bits, key bits and constants for every state bit. "
+         "S-box implementations themselves (bit-sliced vs table) are not compared.")
 
 
 def canon_fields(prog, locs, hidx, b):
